@@ -123,7 +123,9 @@ def main():
         rc, o = run([gm, "list", os.path.join(REPO, f)])
         ms = [json.loads(l) for l in o.splitlines() if l.startswith("{")]
         c = cov.get(f, set())
-        keep = [dict(m, file=f) for m in ms if m["line"] in c and not SKIP.search(m["orig"])]
+        srcl = open(os.path.join(REPO, f)).read().split("\n")
+        keep = [dict(m, file=f) for m in ms if m["line"] in c and not SKIP.search(m["orig"])
+                and "verif" not in srcl[m["line"] - 1]]
         stats[f] = {"mutants": len(ms), "on_executed_lines": len(keep)}
         pool += keep
     rnd = random.Random(seed * 7919 + int(pid[1:]))
